@@ -38,6 +38,10 @@ def classify(pid, d):
 
 CLASSIFIERS = {}
 
+# operations that put the world of a scripted scenario back into its initial state: a replay of a failing
+# operation carries every operation since the last one of these
+CONTEXT_RESETS = {"au.reset", "cl.reset", "ep.reset", "pr.reset", "sd.reset", "sg.reset", "sv.reset", "svc.reset"}
+
 ALL_EXTRACTORS = ["Basic", "Message", "Conversion", "Session", "Service", "SigGrammar", "Value", "Reader", "Encoding", "GenReaders", "Endpoint", "Stream", "Client", "Queues", "Auth", "Calls", "Signals", "Property", "Directory", "Mailbox", "IdlGrammar", "GenTypes"]
 
 
